@@ -238,13 +238,27 @@ def tissue_events(case, pos, cells, k, src, rng):
     rng.setstate(state)
     ev1 = tissue_event(case, pos, cells, k, src, rng, keep=True)
     vertices, edges, cs = ev1.pop("_objects")
+    op = rng.choice(["remove", "remove", "stress"])
     try:
         with core.quiet_stdout():
             frame = fs.frames.Frame(0, vertices, edges, cs, time=0)
             forsys = fs.ForSys({0: frame}, cm=False)
-            victim = rng.choice(sorted(cs.keys()))
-            del frame
-            forsys.remove_cell(0, victim)
+            if op == "remove":
+                victim = rng.choice(sorted(cs.keys()))
+                del frame
+                forsys.remove_cell(0, victim)
+            else:
+                # a read-only analysis on the same objects (coarse-grained stress of a tissue with unit pressures and
+                # tensions) must leave every cell's geometry and neighbours as they were
+                for c in frame.cells.values():
+                    c.pressure = 1.0
+                for b in frame.big_edges.values():
+                    b.tension = 1.0
+                try:
+                    frame.calculate_stress_tensor(coarsing=rng.choice([2, 3]), radius=1.5)
+                except Exception:
+                    pass
+                del frame
     except Exception:
         return evs        # frame construction / removal contracts are judged elsewhere (C08, edits2)
     fr = forsys.frames[0]
@@ -252,7 +266,7 @@ def tissue_events(case, pos, cells, k, src, rng):
         m, vidx, eidx, cidx = project.project_mesh(fr.vertices, fr.edges, fr.cells)
     except Exception:
         return evs
-    ev = {"case": case, "ev": "Tissue", "src": src + ":after_remove", "k": k, "raised": "", "cells": [],
+    ev = {"case": case, "ev": "Tissue", "src": src + ":after_" + op, "k": k, "raised": "", "cells": [],
           "mesh": {"nv": m["nv"], "nc": m["nc"], "C": m["C"], "oc": m["oc"]},
           "pos": [[int(fr.vertices[key].x), int(fr.vertices[key].y)] for key in fr.vertices],
           "isb": ev1["_isb_of"](fr.vertices)}
